@@ -118,6 +118,31 @@ static void dump_tables()
     printf("\nPIECE_VALUE_EG");
     for (int i = 0; i < 7; ++i) printf(" %" PRId64, PIECE_VALUE[i].eg);
     printf("\n");
+    // evaluator constants of value.h, as compiled (the model's Model/Eval.lean reads them from Gen/EvalConsts.lean)
+    {
+        auto sc = [](const char* name, const Score& v) { printf("EVALSC_%s %" PRId64 " %" PRId64 "\n", name, (int64_t)v.mg, (int64_t)v.eg); };
+        auto scarr = [](const char* name, const Score* v, int n) {
+            printf("EVALARR_%s_MG", name); for (int i = 0; i < n; ++i) printf(" %" PRId64, (int64_t)v[i].mg); printf("\n");
+            printf("EVALARR_%s_EG", name); for (int i = 0; i < n; ++i) printf(" %" PRId64, (int64_t)v[i].eg); printf("\n");
+        };
+        auto varr = [](const char* name, const Value* v, int n) {
+            printf("EVALVAL_%s", name); for (int i = 0; i < n; ++i) printf(" %" PRId64, (int64_t)v[i]); printf("\n");
+        };
+        scarr("MOBILITY_BONUS", MOBILITY_BONUS, 7);
+        scarr("CONTROL_SPACE", CONTROL_SPACE, 7);
+        scarr("KING_PROTECTOR_PENALTY", KING_PROTECTOR_PENALTY, 7);
+        scarr("KING_ATTACKER_PENALTY", KING_ATTACKER_PENALTY, 7);
+        varr("PASSED_PAWN_RANK_WEIGHT", PASSED_PAWN_RANK_WEIGHT, 8);
+        varr("CONNECTED_PAWNS_BONUS", CONNECTED_PAWNS_BONUS, 8);
+#define EVSC(n) sc(#n, n)
+        EVSC(ROOK_SEMIOPEN_FILE_BONUS); EVSC(ROOK_OPEN_FILE_BONUS); EVSC(TRAPPED_ROOK_PENALTY); EVSC(BISHOP_PAIR_BONUS);
+        EVSC(CONNECTED_ROOKS_BONUS); EVSC(OUTPOST_KNIGHT_BONUS); EVSC(OUTPOST_BISHOP_BONUS); EVSC(PAWN_CONTROL_CENTER_BONUS);
+        EVSC(PASSED_PAWN_BONUS); EVSC(DOUBLE_PAWN_PENALTY); EVSC(BACKWARD_PAWN_PENALTY); EVSC(ISOLATED_PAWN_PENALTY);
+        EVSC(KING_SAFETY_BONUS); EVSC(SAFE_KNIGHT); EVSC(CONTROL_CENTER_KNIGHT); EVSC(VULNERABLE_QUEEN_PENALTY);
+        EVSC(WEAK_BACKRANK_PENALTY); EVSC(WEAK_KING_DIAGONALS); EVSC(WEAK_KING_LINES); EVSC(KING_PAWN_PROXIMITY_PENALTY);
+        EVSC(PAWNS_ON_SAME_COLOR_AS_BISHOP_PENALTY);
+#undef EVSC
+    }
     // Polyglot randoms as the built code uses them: key of a one-piece position, Black to move (no turn key)
     const char pcs[] = " PNBRQKpnbrqk";
     for (int pc = 1; pc <= 12; ++pc)
